@@ -1,6 +1,8 @@
 /-
 Model of `fpy2/analysis/format_infer/format.py` (class `AbstractFormat`) as the code is
-written today.  Core Lean only.
+written today — i.e. after the repairs of F10 (`_is_contained_in`), F28 (`__abs__`) and F31
+(`_bound_product` in `__mul__`); F29 (`has_neg_zero` of `__neg__`/`__mul__`) is unrepaired and
+modelled as it is.  Core Lean only.
 
 Python sentinels:
 * `prec : int | float`      — `float('inf')` = unbounded   ↦ `Option Nat`, `none` = +∞
@@ -49,12 +51,23 @@ def add : Bnd → Bnd → Bnd
 /-- `a - b` = `a + (-b)` (`RealFloat.__sub__/__rsub__`, float subtraction) -/
 def sub (a b : Bnd) : Bnd := add a (neg b)
 
-/-- `a * b`: `RealFloat.__mul__` with an infinite float gives the infinity with the XOR sign,
-and `nan` when the `RealFloat` is zero (`0 * inf`, since repo commit 3d475f5). -/
-def mul : Bnd → Bnd → Bnd
+/-- `a * b` on a `RealFloat` and/or a Python float: `RealFloat.__mul__` with an infinite float
+gives the infinity with the XOR sign, and `nan` when the `RealFloat` is zero (`0 * inf`). -/
+def mulRaw : Bnd → Bnd → Bnd
   | fin x, fin y => fin (x.mul y)
   | fin x, inf t => if x.c = 0 then nan else inf (x.s != t)
   | inf s, fin y => if y.c = 0 then nan else inf (y.s != s)
+  | inf s, inf t => inf (s != t)
+  | _, _ => nan
+
+/-- `_bound_product(a, b)`: a zero `RealFloat` bound times a float bound (an unbounded side)
+is zero; everything else is `a * b`. -/
+def mul : Bnd → Bnd → Bnd
+  | fin x, fin y => fin (x.mul y)
+  | fin x, inf t => if x.c = 0 then fin (RF.ofInt 0) else inf (x.s != t)
+  | fin x, nan => if x.c = 0 then fin (RF.ofInt 0) else nan
+  | inf s, fin y => if y.c = 0 then fin (RF.ofInt 0) else inf (y.s != s)
+  | nan, fin y => if y.c = 0 then fin (RF.ofInt 0) else nan
   | inf s, inf t => inf (s != t)
   | _, _ => nan
 
@@ -124,9 +137,9 @@ def neg' (a : AbsFmt) : AbsFmt :=
   { prec := a.prec, exp := a.exp, pos := a.neg.neg, neg := a.pos.neg,
     posInf := a.negInf, negInf := a.posInf, nan := a.nan, negZero := a.negZero }
 
-/-- `__abs__` -/
+/-- `__abs__`: `pos_bound = max(pos_bound, -neg_bound)` -/
 def abs' (a : AbsFmt) : AbsFmt :=
-  { prec := a.prec, exp := a.exp, pos := a.pos, neg := .fin (RF.ofInt 0),
+  { prec := a.prec, exp := a.exp, pos := Bnd.max2 a.pos a.neg.neg, neg := .fin (RF.ofInt 0),
     posInf := a.posInf || a.negInf, negInf := false, nan := a.nan, negZero := false }
 
 /-- the precision computed by `__add__`/`__sub__` from the new bounds and exponent -/
@@ -224,16 +237,16 @@ def precFits (a : AbsFmt) (pb : Nat) : Bool :=
       else true
   else true
 
-/-- `_is_contained_in` (= `__le__`, `contained_in`).  NB the precision test is entered only
-when `other.prec` AND `other.exp` are finite. -/
+/-- `_is_contained_in` (= `__le__`, `contained_in`): the precision test is entered whenever
+`other.prec` is finite. -/
 def le (a b : AbsFmt) : Bool :=
   if !specialsContainedIn a b then false
   else if expGt b.exp a.exp then false
   else if Bnd.lt b.pos a.pos then false
   else if Bnd.gt b.neg a.neg then false
-  else match b.prec, b.exp with
-    | some pb, some _ => precFits a pb
-    | _, _ => true
+  else match b.prec with
+    | some pb => precFits a pb
+    | none => true
 
 /-- `with_prec_offset(delta)` (drops `has_neg_zero`, as the code does) -/
 def withPrecOffset (a : AbsFmt) (delta : Int) : Except Err AbsFmt :=
@@ -253,7 +266,7 @@ def withExpOffset (a : AbsFmt) (delta : Int) : AbsFmt :=
 /-- `with_bounds_scale(factor)` for a `RealFloat` factor (drops `has_neg_zero`) -/
 def withBoundsScale (a : AbsFmt) (f : RF) : Except Err AbsFmt :=
   if f.le (RF.ofInt 0) then .error .valueError
-  else .ok { prec := a.prec, exp := a.exp, pos := a.pos.mul (.fin f), neg := a.neg.mul (.fin f),
+  else .ok { prec := a.prec, exp := a.exp, pos := a.pos.mulRaw (.fin f), neg := a.neg.mulRaw (.fin f),
              posInf := a.posInf, negInf := a.negInf, nan := a.nan }
 
 /-- The finite-value part of `from_format`: which class of `Format` and which of its
